@@ -96,6 +96,16 @@ def call(f, *a, **k):
         return ("raises", type(e).__name__)
 
 
+class _Str(str):
+    pass
+
+
+class _Vocab(dict):
+    """a dict subclass a caller may legitimately use as vocabulary (e.g. with a default for unknown symbols); here
+    without any changed behaviour"""
+    pass
+
+
 def run_grid(arg, r):
     k, nsh, maxsym = arg
     strings = all_strings(maxsym)
@@ -124,6 +134,29 @@ def run_grid(arg, r):
                         continue
                     r.validated += 1
                     r.nontrivial.add(h64((tuple(exp[0]), len(stoi))))
+                # the documented defaults (pad_to_len=-1, enc_type='both') and positional passing; arguments of other legal
+                # types: a str subclass, an OrderedDict / a read-only mapping-like dict subclass for the vocabulary
+                if pad == -1:
+                    variants = [("defaults", lambda: _SF.selfies_to_encoding(s, dict(stoi))),
+                                ("positional", lambda: _SF.selfies_to_encoding(s, dict(stoi), -1, "both")),
+                                ("str-subclass", lambda: _SF.selfies_to_encoding(_Str(s), dict(stoi), pad_to_len=-1, enc_type="both")),
+                                ("dict-subclass", lambda: _SF.selfies_to_encoding(s, _Vocab(stoi), pad_to_len=-1, enc_type="both"))]
+                    for vname, fn in variants:
+                        r.evaluations += 1
+                        try:
+                            got = ("ok", fn())
+                        except Exception as e:
+                            got = ("raises", type(e).__name__)
+                        case = {"kind": "encode", "selfies": s, "vocab": stoi, "pad": -1, "enc_type": "both", "variant": vname}
+                        if exp is None:
+                            if got[0] != "raises":
+                                r.violation("encode:should-raise", case, "%s: returned %r" % (vname, got[1]))
+                            else:
+                                r.validated += 1
+                        elif got != ("ok", (ref_encode(toks, stoi, -1)[0], ref_encode(toks, stoi, -1)[1])):
+                            r.violation("encode:wrong-both", case, "%s: got %r" % (vname, got))
+                        else:
+                            r.validated += 1
                 if exp is None:
                     continue
                 # decoding side, from the reference encodings (so a wrong encoder cannot mask a wrong decoder)
